@@ -184,6 +184,18 @@ def collisionFree (d : Dir) (k : Nat) : Infix :=
     | s :: ss => .ts k (some (ss.foldl max s + 1))
   else .ts k none
 
+/-- `infix_of_file_to_append_to` (direct timestamp naming with append, since the `fix:`): the file
+    to continue is the newest one with this stamp — the plain file with the highest
+    `.restart-NNNN` number if such siblings exist, else the plain base file; if there is no plain
+    file to append to, a name that collides with nothing -/
+def appendTarget (d : Dir) (k : Nat) : Infix :=
+  let plainSiblings : List Nat := d.filterMap (fun e => match e.1.ifx, e.1.gz with
+    | some (.ts k' (some r)), false => if k' = k then some r else none
+    | _, _ => none)
+  match plainSiblings with
+  | s :: ss => .ts k (some (ss.foldl max s))
+  | [] => if d.has ⟨some (.ts k none), false⟩ then .ts k none else collisionFree d k
+
 /-- `latest_timestamp_file` when appending: newest stamp among the plain timestamp files -/
 def latestStamp (d : Dir) : Option Nat :=
   d.foldl (fun acc e => match e.1.ifx, e.1.gz with
@@ -259,7 +271,7 @@ def initState (s : St) (now : Nat) (fl : Faults) : St × Bool :=
       | .timestampsDirect =>
         let t := if !s.cfg.append then now else (latestStamp s.dir).getD now
         -- without append the name is made collision-free (since the `fix:` commit)
-        some (s, if !s.cfg.append then collisionFree s.dir t else .ts t none, 0, t)
+        some (s, if !s.cfg.append then collisionFree s.dir t else appendTarget s.dir t, 0, t)
       | .timestamps =>
         let curN : FName := ⟨some .cur, false⟩
         if !s.cfg.append then
